@@ -193,6 +193,12 @@ class Gen:
         if op == "mat":
             self.nmat += 1
             return ["mat", prog, f"M{self.nmat}"], cols, eng
+        if op in ("cap", "rev"):
+            # user-defined RowFilter / Reordering (extension points); only an engine subclass that
+            # implements apply_custom_unary_operation can run them: the iteration engines here
+            if not eng.startswith("it"):
+                return None
+            return (["cap", prog, rng.choice([0, 1, 2, 3, 5])] if op == "cap" else ["rev", prog]), cols, eng
         if op == "mark":
             # a user-defined marker relation (extension point); SQL conform() drops such markers
             if not eng.startswith("it"):
@@ -315,7 +321,7 @@ def op_signature(prog) -> str:
         return "L"
     if op in ("chain", "join"):
         return f"({op_signature(prog[1])}{'U' if op == 'chain' else 'J'}{op_signature(prog[2])})"
-    short = {"calc": "c", "proj": "p", "sel": "s", "dedup": "d", "sort": "o", "slice": "l", "mat": "m", "xfer": "x", "mark": "k"}
+    short = {"calc": "c", "proj": "p", "sel": "s", "dedup": "d", "sort": "o", "slice": "l", "mat": "m", "xfer": "x", "mark": "k", "cap": "f", "rev": "r"}
     return op_signature(prog[1]) + short[op]
 
 
@@ -344,7 +350,7 @@ def chain_with_name_twin(g: Gen, state, rng):
         return None
     for name, t in twins.items():
         g.leaves[name + "t"] = t
-    ops = ("leaf", "calc", "proj", "sel", "dedup", "sort", "slice", "chain", "join", "mat", "xfer", "mark")
+    ops = ("leaf", "calc", "proj", "sel", "dedup", "sort", "slice", "chain", "join", "mat", "xfer", "mark", "cap", "rev")
 
     def retarget(p):
         if p[0] == "leaf":
